@@ -70,53 +70,67 @@ fn hex(s: &str) -> BigInt {
     }
 }
 
-fn show(v: &BigInt) -> String {
-    format!("ok {}", v.to_str_radix(16))
+/// What a function answered, before any text is made of it (so that the allocation counter sees the function only).
+pub enum Out {
+    V(BigInt),
+    E(&'static str),
 }
 
-fn show_res(r: Result<BigInt, ma::ArithmeticError>) -> String {
+fn res(r: Result<BigInt, ma::ArithmeticError>) -> Out {
     match r {
-        Ok(v) => show(&v),
-        Err(ma::ArithmeticError::DivisionByZero) => "err div0".to_string(),
-        Err(ma::ArithmeticError::BitOverFlowInShift) => "err shift".to_string(),
+        Ok(v) => Out::V(v),
+        Err(ma::ArithmeticError::DivisionByZero) => Out::E("err div0"),
+        Err(ma::ArithmeticError::BitOverFlowInShift) => Out::E("err shift"),
     }
 }
 
-pub fn apply(op: &str, a: &BigInt, b: &BigInt, p: &BigInt) -> String {
+pub fn compute(op: &str, a: &BigInt, b: &BigInt, p: &BigInt) -> Out {
+    use Out::V;
     match op {
-        "add" => show(&ma::add(a, b, p)),
-        "mul" => show(&ma::mul(a, b, p)),
-        "sub" => show(&ma::sub(a, b, p)),
-        "div" => show_res(ma::div(a, b, p)),
-        "idiv" => show_res(ma::idiv(a, b, p)),
-        "mod" => show_res(ma::mod_op(a, b, p)),
-        "pow" => show(&ma::pow(a, b, p)),
-        "neg" => show(&ma::prefix_sub(a, p)),
-        "compl" => show(&ma::complement_256(a, p)),
-        "shl" => show_res(ma::shift_l(a, b, p)),
-        "shr" => show_res(ma::shift_r(a, b, p)),
-        "bor" => show(&ma::bit_or(a, b, p)),
-        "band" => show(&ma::bit_and(a, b, p)),
-        "bxor" => show(&ma::bit_xor(a, b, p)),
-        "asbool" => show(&BigInt::from(ma::as_bool(a, p) as u8)),
-        "not" => show(&ma::not(a, p)),
-        "or" => show(&ma::bool_or(a, b, p)),
-        "and" => show(&ma::bool_and(a, b, p)),
-        "eq" => show(&ma::eq(a, b, p)),
-        "lt" => show(&ma::lesser(a, b, p)),
-        "neq" => show(&ma::not_eq(a, b, p)),
-        "le" => show(&ma::lesser_eq(a, b, p)),
-        "gt" => show(&ma::greater(a, b, p)),
-        "ge" => show(&ma::greater_eq(a, b, p)),
-        _ => "unknown-op".to_string(),
+        "add" => V(ma::add(a, b, p)),
+        "mul" => V(ma::mul(a, b, p)),
+        "sub" => V(ma::sub(a, b, p)),
+        "div" => res(ma::div(a, b, p)),
+        "idiv" => res(ma::idiv(a, b, p)),
+        "mod" => res(ma::mod_op(a, b, p)),
+        "pow" => V(ma::pow(a, b, p)),
+        "neg" => V(ma::prefix_sub(a, p)),
+        "compl" => V(ma::complement_256(a, p)),
+        "shl" => res(ma::shift_l(a, b, p)),
+        "shr" => res(ma::shift_r(a, b, p)),
+        "bor" => V(ma::bit_or(a, b, p)),
+        "band" => V(ma::bit_and(a, b, p)),
+        "bxor" => V(ma::bit_xor(a, b, p)),
+        "asbool" => Out::E(if ma::as_bool(a, p) { "ok 1" } else { "ok 0" }),
+        "not" => V(ma::not(a, p)),
+        "or" => V(ma::bool_or(a, b, p)),
+        "and" => V(ma::bool_and(a, b, p)),
+        "eq" => V(ma::eq(a, b, p)),
+        "lt" => V(ma::lesser(a, b, p)),
+        "neq" => V(ma::not_eq(a, b, p)),
+        "le" => V(ma::lesser_eq(a, b, p)),
+        "gt" => V(ma::greater(a, b, p)),
+        "ge" => V(ma::greater_eq(a, b, p)),
+        _ => Out::E("unknown-op"),
     }
+}
+
+/// The answer as text, and the largest single allocation requested WHILE THE FUNCTION RAN (the counter is read
+/// before the answer is turned into text).
+pub fn guarded_op_work(op: &str, a: &BigInt, b: &BigInt, p: &BigInt) -> (String, usize) {
+    MAX_ALLOC.store(0, Ordering::Relaxed);
+    let r = catch_unwind(AssertUnwindSafe(|| compute(op, a, b, p)));
+    let m = MAX_ALLOC.load(Ordering::Relaxed);
+    let s = match r {
+        Ok(Out::V(v)) => format!("ok {}", v.to_str_radix(16)),
+        Ok(Out::E(e)) => e.to_string(),
+        Err(_) => "panic".to_string(),
+    };
+    (s, m)
 }
 
 pub fn guarded_op(op: &str, a: &BigInt, b: &BigInt, p: &BigInt) -> String {
-    match catch_unwind(AssertUnwindSafe(|| apply(op, a, b, p))) {
-        Ok(s) => s,
-        Err(_) => "panic".to_string(),
-    }
+    guarded_op_work(op, a, b, p).0
 }
 
 /// Watchdog limit in seconds: `default`, or VERIF_FIELD_WATCHDOG_SECS (the check re-runs a case that timed out
@@ -131,9 +145,7 @@ pub fn run_line(line: &str, work: bool) -> String {
         return "bad-line".to_string();
     }
     let (a, b, p) = (hex(t[1]), hex(t[2]), hex(t[3]));
-    MAX_ALLOC.store(0, Ordering::Relaxed);
-    let r = guarded_op(t[0], &a, &b, &p);
-    let m = MAX_ALLOC.load(Ordering::Relaxed);
+    let (r, m) = guarded_op_work(t[0], &a, &b, &p);
     if work {
         format!("{} {} {} {} = {} maxalloc {}", t[0], t[1], t[2], t[3], r, m)
     } else {
